@@ -214,6 +214,7 @@ func families(thorough bool) []graphFamily {
 		{"same-path-twins-acyclic", refgraph.Options{Docs: 4, Defs: 2, Elements: true, RefP: 0.7, Spellings: true, Twins: true}},
 		{"case-twins", refgraph.Options{Docs: 3, Defs: 3, Elements: true, Cycles: true, RefP: 0.7, Spellings: true, CaseTwins: true}},
 		{"http-root", refgraph.Options{Docs: 4, Defs: 2, Elements: true, Cycles: true, RefP: 0.6, Spellings: true, HTTPRoot: true}},
+		{"escaped-locations", refgraph.Options{Docs: 3, Defs: 3, Elements: true, Cycles: true, RefP: 0.6, Spellings: true, EscapedLocs: true}},
 		{"whole-document-schema", refgraph.Options{Docs: 2, Defs: 2, RefP: 0.5, Spellings: true, WholeDoc: true}},
 	}
 }
